@@ -231,6 +231,41 @@ def run_cfg(chk, facts, cfg):
                    not ovp, '; '.join(sorted(ovp)[:3]), where)
         except Unsupported as e:
             chk.ob('%s:exact-domain:%s%s' % (PID, label, sfx), 'E9 exactness', label, None, 'undecided: %s' % e, where)
+        # the laws speak about every admissible (n, k) at every level: on the accepted count domain the function must
+        # return its interval unconditionally - a rejection (or an acceptance) that depends on the level or on the computed
+        # bounds makes the accepted domain neither mirror-symmetric nor monotone in k
+        from .C02 import err_variant
+        for kind, kname in KINDS:
+            try:
+                sx_d, paths_d = summ(facts, fn, ['confidence', 'n', 'k'], [cm.value(kind, L), None, None])
+                probs = []
+
+                def beyond_counts(atom):
+                    """the condition depends on the level or on computed (rounded) quantities, not on the counts alone"""
+                    hit = []
+                    T.walk(atom, lambda t: hit.append(t) if (t[0] == 'call' or (t[0] == 'op' and t[1] in ('sqrt', 'div', 'mul')) or (t[0] == 'sym' and t[1] not in ('n', 'k'))) else None)
+                    return bool(hit)
+                for p_d, resid in prune(paths_d, dom):
+                    lits = [a_ for a_, pol in resid if beyond_counts(a_)]
+                    if not lits:
+                        continue      # conditions on the counts alone: the domain guards (C02, exact-domain above)
+                    if p_d.is_ret() and unwrap_ok(p_d.ret) is not None:
+                        if kind != 'two':
+                            # the checked constructor compares the computed bound with the fixed end 0 / 1 (complement of the
+                            # documented InvalidBounds case)
+                            lits = [a_ for a_ in lits if not (a_[0] == 'op' and a_[1] in ('lt', 'le') and any(T.const_num(x) in (Fraction(0), Fraction(1)) for x in a_[2]))]
+                            if not lits:
+                                continue
+                        probs.append('the interval is returned only under the further condition %s' % T.show(lits[0])[:90])
+                        continue
+                    ev = err_variant(facts, p_d.ret) if p_d.is_ret() else 'panic'
+                    if kind != 'two' and ev == 'IntervalError/InvalidBounds':
+                        continue      # documented: a one-sided bound beyond the fixed end of the unit interval
+                    probs.append('admissible counts are rejected with %s under the condition %s' % (ev, T.show(lits[0])[:90]))
+                chk.ob('%s:domain-total:%s:%s%s' % (PID, label, kname, sfx), 'E3-regions', '%s(%s) returns its interval for every admissible (n, k), whatever the level' % (label, kname),
+                       not probs, '; '.join(sorted(set(probs))[:2]), where)
+            except (Unsupported, NotReal) as e:
+                chk.ob('%s:domain-total:%s:%s%s' % (PID, label, kname, sfx), 'E3-regions', label, None, 'undecided: %s' % e, where)
         for kind, kname in KINDS:
             key = '%s:mirror:%s:%s%s' % (PID, label, kname, sfx)
             try:
